@@ -170,3 +170,9 @@ var verifHarnessMu sync.Mutex
 
 func hLock()   { verifHarnessMu.Lock() }
 func hUnlock() { verifHarnessMu.Unlock() }
+
+func cutLoop(fn string, pre func(), post func()) {}
+func loopVarInt(name string) int                 { panic("loopVar is only available under gosym") }
+func loopVarU64(name string) uint64              { panic("loopVar is only available under gosym") }
+func loopVarI64(name string) int64               { panic("loopVar is only available under gosym") }
+func cutActive() bool                            { return false }
